@@ -81,6 +81,7 @@ class PreludeMixin:
         st.assume(z3.ForAll([k], z3.Implies(z3.Select(dom, k),
                                             z3.And(idx(k) >= 0, idx(k) < n, z3.Select(arr, idx(k)) == k)),
                             patterns=[z3.Select(dom, k)]))
+        self.snapshot_idx[lst.t[1].get_id()] = idx
         return lst
 
     def materialize(self, st, fr, it, elem_kind=None):
@@ -88,6 +89,8 @@ class PreludeMixin:
         k = ops.kind_of(it)
         if isinstance(k, KList):
             return it
+        if isinstance(k, (KDict, KSet)):
+            return self.snapshot_keys(st, it)
         if isinstance(it, TupleVal):
             if elem_kind is None:
                 ek = None
@@ -582,6 +585,9 @@ class PreludeMixin:
             return self.record_method(st, fr, fv.selfv, q.split('.', 1)[1], args, kwargs)
         if q.startswith('spec.'):
             return [(st, self.spec_builtin(st, fr, q[5:], args))]
+        if q.startswith('zfunc.'):
+            f, rk = fv.py
+            return [(st, SVal(rk, [f(*[lift(a).z for a in args])]))]
         if q.startswith('fold.'):
             return [(st, self.fold_apply(st, q[5:], args[0], list(args[1:])))]
         if q.startswith('ufunc.'):
